@@ -1,6 +1,7 @@
 //! Module implementing parsing for BIP-0032 HD paths used for key derivation.
 
-use anyhow::{Context as _, Result};
+use super::HARDENED;
+use anyhow::{ensure, Context as _, Result};
 use std::{
     fmt::{self, Display, Formatter},
     str::FromStr,
@@ -14,8 +15,11 @@ pub struct Path {
 
 impl Path {
     /// Creates the default Ethereum HD path for the specified account index.
-    pub fn for_index(index: usize) -> Self {
-        format!("m/44'/60'/0'/0/{index}").parse().unwrap()
+    ///
+    /// This method returns an error if the account index is not a valid
+    /// BIP-0032 child index (it must be less than `2^31`).
+    pub fn for_index(index: usize) -> Result<Self> {
+        format!("m/44'/60'/0'/0/{index}").parse()
     }
 
     /// Returns an iterator over the path components.
@@ -80,6 +84,10 @@ impl FromStr for Component {
         let value = value
             .parse()
             .with_context(|| format!("invalid BIP-0032 path component '{s}'"))?;
+        ensure!(
+            value < HARDENED,
+            "BIP-0032 path component '{s}' out of range, must be less than {HARDENED}",
+        );
 
         Ok(if hardened {
             Component::Hardened(value)
